@@ -33,7 +33,7 @@ BOUND = (
     "unnormalised, zeros allowed; long/short: signed), schedule kind cycling through weekly MON..FRI / daily / "
     "end_of_month / buy_and_hold (start 14:30) and sizer cycling long-only / long-short with the case index, cash "
     "buffer in {0,.01,.05,.25,.5}, gross leverage in {.5,1,1.5,2,3}, zero fee or percentage fee with "
-    "commission+tax <= 1.5%%, initial cash in {1e4,12345.67,1e5,1e6,2.5e7}, start on any calendar day 2018-2021 at "
+    "commission+tax <= 1.5%%, initial cash in {1e4,12345.67,1e5,1e6,2.5e7}, start on any calendar day 2018-2021 at 09:00, "
     "00:00 or 14:30, end 2-12 weeks later at 23:59. quick: the first %d cases (or fewer if budget_s is used up); "
     "thorough: the first %d cases. Money compared to 1e-6 relative, quantities / times / assets exactly. Cases in "
     "which the FIRST fill that differs is a quantity difference explained by a sizing step of the reference that "
